@@ -243,8 +243,7 @@ def gen(
         )
     )
 
-    with open(output_filename, "a") as f:
-        f.write(to_code(parsed_ast))
+    emit.file(parsed_ast, output_filename, mode="a", skip_black=True)
 
 
 __all__ = ["gen"]
